@@ -64,7 +64,7 @@ DEC_FUNCS = ['CdnsDecoder::peek_type', 'CdnsDecoder::read_unsigned', 'CdnsDecode
              'CdnsDecoder::read_bool', 'CdnsDecoder::read_bytestring', 'CdnsDecoder::read_textstring', 'CdnsDecoder::read_array_start',
              'CdnsDecoder::read_map_start', 'CdnsDecoder::read_break', 'CdnsDecoder::skip_item', 'CdnsDecoder::read_cbor_type',
              'CdnsDecoder::read_int', 'CdnsDecoder::read_string', 'CdnsDecoder::read_to_buffer', 'CdnsDecoder::CdnsDecoder']
-SKIP_REDIRECT = ('_ZN4CDNS11CdnsDecoder9skip_itemEv=skip_item__contract@self',)
+SKIP_REDIRECT = ('_ZN4CDNS11CdnsDecoder9skip_itemEj=skip_item__contract@self',)
 
 
 def dec_obls(groups):
@@ -96,9 +96,9 @@ def dec_obls(groups):
     if 'skip' in groups:
         for bs, maxin, tiers in skip_cfg:
             d = ['CDNS_VERIF_DECODER_BUFFER_SIZE=%d' % bs, 'DEC_MAXIN=%d' % maxin]
-            for h in ('skip_array', 'skip_map', 'skip_indef_array', 'skip_indef_map', 'skip_tag', 'skip_leaf', 'skip_any'):
+            for h in ('skip_array', 'skip_map', 'skip_indef_array', 'skip_indef_map', 'skip_tag', 'skip_leaf', 'skip_any', 'skip_depth'):
                 us = {r'read_to_buffer': bs + 1, r'ref_head': 9, r'__v_mem': 17, r'skip_item__contract': 4}
-                if h not in ('skip_leaf', 'skip_any'):
+                if h not in ('skip_leaf', 'skip_any', 'skip_depth'):
                     us[r'read_string'] = 1      # string paths are infeasible under the harness assumptions (checked by the unwinding assertions)
                 o.append(Obl('dec_%s_w%d_n%d' % (h, bs, maxin), 'dec.cpp', 'h_dec_' + h, unwind=maxin + 2, defines=d, tiers=tiers, unwindset=us, timeout=2400,
                              redirect=SKIP_REDIRECT, mem_gb=20,
@@ -161,7 +161,7 @@ TBL_ASSUME = ['std::unordered_map model: slots with the hash code cached at inse
 
 
 def tbl_obl(name, entry, desc, tiers=('quick', 'thorough'), unwind=8, timeout=900, extra=()):
-    return Obl(name, 'tbl.cpp', 'noctor:' + entry, unwind=unwind, unwindset=TBL_US, tiers=tiers, timeout=timeout, desc=desc, extra=extra,
+    return Obl(name, 'tbl.cpp', 'noctor:' + entry, unwind=unwind, unwindset=TBL_US, tiers=tiers, timeout=timeout, desc=desc, extra=extra, mem_gb=(30 if timeout > 2000 else 12),
                bounds={'table entries': '<= 4', 'additions per history': '<= 3', 'strings': '<= 6 bytes', 'index lists': '<= 4 entries', 'integers': 'full width'}, functions=TBL_FUNCS)
 
 
@@ -172,8 +172,9 @@ PROPS['C11'] = {
                     for t in ('classtype', 'rr', 'mmd', 'stringitem')] +
                    [tbl_obl('eq_members', 'h_eq_members', 'operator== of the key types implies member-wise equality including presence of optionals')] +
                    [tbl_obl('tbl_' + t, 'h_tbl_' + t, 'history of <= 3 add() of symbolic values, then find/operator[]/clear/add: dedup, index stability, distinctness, clear', timeout=900)
-                    for t in ('classtype', 'rr', 'question', 'mmd')] +
-                   [tbl_obl('tbl_block_strings', 'h_tbl_block_strings', 'CdnsBlock::add_ip_address / add_question_list (reinterpret_cast keys): dedup, getters bounds-checked, clear', timeout=1500)],
+                    for t in ('classtype', 'rr', 'question')] +
+                   [tbl_obl('tbl_mmd', 'h_tbl_mmd', 'same for MalformedMessageData (string payload)', tiers=('thorough',), timeout=3600),
+                    tbl_obl('tbl_block_strings', 'h_tbl_block_strings', 'CdnsBlock::add_ip_address / add_question_list (reinterpret_cast keys): dedup, getters bounds-checked, clear', tiers=('thorough',), timeout=3600)],
     'explanation': 'Hash/equality agreement is decided for all values of each key type (two symbolic values; storage that is not part of the value is unconstrained). '
                    'Table behaviour is decided on whole histories of <= 3 additions from the constructor plus a query, with symbolic (possibly equal) values.',
     'assumptions': TBL_ASSUME,
@@ -236,4 +237,19 @@ PROPS['C13'] = {
     'explanation': 'Rotation at the writer and encoder layers: everything buffered reaches the old sink before the writer rotates (enc_rotate), and a rotation request that cannot be honoured is not silently ignored. '
                    'The exporter-level part (break, counter reset, header on next block) is decided with the block/exporter harness.',
     'assumptions': WR_ASSUME,
+}
+
+
+# ------------------------------------------------------------------------------------------ C03 (read side safety)
+REND_FUNCS = ['get_readable_dname', 'get_readable_ip_address (interface.cpp)']
+PROPS['C03'] = {
+    'obligations': [Obl('rend_dname', 'rend.cpp', 'noctor:h_rend_dname', unwind=13, desc='get_readable_dname on every string of 0..10 symbolic bytes: no index beyond size(), no oversized construction', bounds={'string length': '0..10'}, functions=REND_FUNCS),
+                    Obl('rend_ip', 'rend.cpp', 'noctor:h_rend_ip', unwind=13, desc='get_readable_ip_address on every string of 0..10 bytes (and the 16-byte case by the size()==16 rule): inet_ntop only reads bytes of the string', bounds={'string length': '0..10'}, functions=REND_FUNCS)] +
+                   [o for o in dec_obls(('prim', 'string', 'skip')) if any(k in o.name for k in ('unsigned_', 'negative', 'bool_', 'map_start', 'bytestring', 'textstring', 'skip_any', 'skip_depth', 'skip_leaf'))] +
+                   [Obl('ts_T2_ub_all', 'ts.cpp', 'T2_ub_all', kind='smt', desc='add_time_offset (reachable from file data in CdnsBlockRead::read): no undefined arithmetic for ANY 64-bit secs/ticks/offset/rate', bounds=TS_B, functions=TS_FUNCS)],
+    'explanation': 'Read-side safety is decided on the units that touch untrusted bytes: every decoder primitive from every I_dec state on arbitrary bytes (CBMC pointer/bounds checks inside the real code, '
+                   'exception kinds, reserve() requests bounded by a constant or the input size, recursion depth of skip_item bounded by MAX_SKIP_NESTING through the depth contract), the two text-rendering '
+                   'kernels on arbitrary strings, and the time-offset arithmetic for all 64-bit values. The schema readers (block/preamble) are covered at token level by the block harness obligations; '
+                   'the five command-line tools (process exit status) are outside the encoding.',
+    'assumptions': DEC_ASSUME + ['inet_ntop: reads exactly 4/16 bytes at src, writes a NUL-terminated string shorter than size, or fails', 'strlen: loop model'],
 }
